@@ -20,6 +20,7 @@ import (
 	"pgregory.net/rapid"
 
 	pb "github.com/fullstorydev/grpchan/grpchantesting"
+	"github.com/fullstorydev/grpchan/httpgrpc"
 )
 
 type c20Case struct {
@@ -43,6 +44,8 @@ type c20Case struct {
 	HdrCalls int `json:",omitempty"`
 	// RecvBlocked: c2s on bidi: another goroutine of the client sits in RecvMsg the whole time (full duplex)
 	RecvBlocked bool `json:",omitempty"`
+	// BadRecv: s2c on response-streaming kinds: the client's first RecvMsg fails (wrong message type)
+	BadRecv bool `json:",omitempty"`
 }
 
 type c20Obs struct {
@@ -241,10 +244,19 @@ func propC20(c c20Case) *Outcome {
 			}
 			return
 		}
+		wrongType := c.BadRecv && firstConsume && serverStreaming(c.Kind)
 		firstConsume = false
 		didRecv = true
 		takers += clientRecvCost
-		if s := guardFor(stallBound, "client RecvMsg", func() { cs.RecvMsg(new(pb.Message)) }); s != "" {
+		if s := guardFor(stallBound, "client RecvMsg", func() {
+			if wrongType {
+				// a receive that fails (the caller's message is of another type): it has used up one message
+				// and nothing more - whatever the client does next, nobody is receiving on its behalf
+				cs.RecvMsg(new(httpgrpc.HttpTrailer))
+				return
+			}
+			cs.RecvMsg(new(pb.Message))
+		}); s != "" {
 			obs.Fault = s
 		}
 	}
@@ -385,6 +397,7 @@ func genC20(t *rapid.T) c20Case {
 	if c.UseHdr {
 		c.HdrCalls = rapid.SampledFrom([]int{0, 0, 1, 2}).Draw(t, "hdrcalls")
 	}
+	c.BadRecv = c.Dir == "s2c" && rapid.IntRange(0, 3).Draw(t, "badrecv") == 0
 	c.RecvBlocked = c.Dir == "c2s" && c.Kind == kBidi && rapid.IntRange(0, 2).Draw(t, "recvblocked") == 0
 	c.CallOpts = rapid.SampledFrom([]int{0, 0, 0, 1, 1, 2, 3, 4, 7}).Draw(t, "callopts")
 	if c.Dir == "c2s" && c.Kind == kBidi {
